@@ -1,9 +1,12 @@
 package psim
 
 import (
+	"encoding/json"
 	"flag"
 	"fmt"
 	"os"
+	"path"
+	"sort"
 	"strings"
 	"testing"
 	"testing/synctest"
@@ -11,13 +14,20 @@ import (
 )
 
 var (
-	flagMode  = flag.String("psim.mode", "smoke", "worker mode")
-	flagRoot  = flag.String("psim.root", "", "scratch root of this worker")
-	flagRepo  = flag.String("psim.repo", "/repo", "repository root")
-	flagSeed  = flag.Uint64("psim.seed", 1, "first seed")
-	flagN     = flag.Int("psim.n", 1, "number of runs")
-	flagOut   = flag.String("psim.out", "", "output file")
-	flagTrace = flag.Bool("psim.trace", false, "print schedule trace")
+	flagMode    = flag.String("psim.mode", "run", "worker mode: run, replay, smoke")
+	flagProfile = flag.String("psim.profile", "C01", "profile (property id)")
+	flagTier    = flag.String("psim.tier", "quick", "quick or thorough")
+	flagRoot    = flag.String("psim.root", "", "scratch root of this worker")
+	flagRepo    = flag.String("psim.repo", "/repo", "repository root")
+	flagSeed    = flag.Uint64("psim.seed", 1, "first case seed")
+	flagStride  = flag.Uint64("psim.stride", 1, "seed stride (number of workers)")
+	flagN       = flag.Int("psim.n", 1000000, "maximal number of cases")
+	flagBudget  = flag.Duration("psim.budget", 30*time.Second, "wall-clock budget for this worker")
+	flagOut     = flag.String("psim.out", "", "result file (JSON lines)")
+	flagReplay  = flag.String("psim.replay", "", "replay file")
+	flagTrace   = flag.Bool("psim.trace", false, "print schedule trace")
+	flagShrink  = flag.Duration("psim.shrink", 45*time.Second, "shrink budget per violation")
+	flagMaxViol = flag.Int("psim.maxviol", 3, "stop after this many violating cases")
 )
 
 // InBubble runs f inside a fresh synctest bubble and survives the end-of-bubble
@@ -34,6 +44,227 @@ func InBubble(t *testing.T, f func()) {
 	synctest.Test(t, func(t *testing.T) { f() })
 }
 
+// Case is one seeded test case of a profile: it may perform several runs.
+type CaseResult struct {
+	Seed       uint64         `json:"seed"`
+	Profile    string         `json:"profile"`
+	Runs       int            `json:"runs"`
+	Steps      int            `json:"steps"`
+	SimTimeMs  int64          `json:"sim_ms"`
+	Jobs       int            `json:"jobs"`
+	Class      string         `json:"class"`
+	Violations []Violation    `json:"violations,omitempty"`
+	Probes     map[string]int `json:"probes,omitempty"`
+	Faults     map[string]int `json:"faults,omitempty"`
+	Shape      string         `json:"shape"` // hash of the program
+	Sched      string         `json:"sched"` // hash of the schedule(s)
+	States     []string       `json:"-"`
+	Nontrivial bool           `json:"nontrivial"`
+	Sample     interface{}    `json:"sample,omitempty"`
+	Notes      []string       `json:"notes,omitempty"`
+	PlanLen    int            `json:"plan_len"`
+	SchedLen   int            `json:"sched_len"`
+}
+
+func (c *CaseResult) addRun(r *Run) {
+	c.Runs++
+	c.Steps += r.Steps
+	c.SimTimeMs += r.SimTime.Milliseconds()
+	c.Jobs += len(r.Jobs)
+	for k, v := range r.Probes {
+		c.Probes[k] += v
+	}
+	for k, v := range r.Faults {
+		c.Faults[k] += v
+	}
+	c.Sched = fmt.Sprintf("%x", hash64(c.Sched, fmt.Sprint(r.SchedHash)))
+	for _, v := range r.Violations {
+		c.Violations = append(c.Violations, v)
+	}
+}
+
+type Ctx struct {
+	T     *testing.T
+	Root  string
+	Tier  string
+	Plan  *Tape
+	Sched *Tape
+	Res   *CaseResult
+	Keep  bool // keep traces (replay / sample)
+}
+
+func (c *Ctx) thorough() bool { return c.Tier == "thorough" }
+
+// RunOnce executes one simulated run in its own bubble.
+func (c *Ctx) RunOnce(cfg *RunCfg, setup func(r *Run)) *Run {
+	cfg.Root = c.Root
+	cfg.Sched = c.Sched
+	cfg.KeepTrace = c.Keep
+	var r *Run
+	InBubble(c.T, func() {
+		r = NewRun(cfg)
+		if setup != nil {
+			setup(r)
+		}
+		r.Execute()
+	})
+	c.Res.addRun(r)
+	if ExportHook != nil {
+		ExportHook(r)
+	}
+	return r
+}
+
+type ProfileFn func(c *Ctx)
+
+var Profiles = map[string]ProfileFn{}
+
+func runCase(t *testing.T, profile string, seed uint64, plan, sched *Tape, tier string, keep bool) *CaseResult {
+	fn := Profiles[profile]
+	if fn == nil {
+		t.Fatalf("unknown profile %s", profile)
+	}
+	res := &CaseResult{Seed: seed, Profile: profile, Probes: map[string]int{}, Faults: map[string]int{}}
+	ctx := &Ctx{T: t, Root: *flagRoot, Tier: tier, Plan: plan, Sched: sched, Res: res, Keep: keep}
+	fn(ctx)
+	res.PlanLen, res.SchedLen = len(plan.Rec), len(sched.Rec)
+	// only this property's violations count for this profile; SIM problems always do
+	return res
+}
+
+// ReplayFile is the on-disk form of a (minimised) failing case.
+type ReplayFile struct {
+	Profile   string      `json:"profile"`
+	Tier      string      `json:"tier"`
+	Seed      uint64      `json:"seed"`
+	Plan      []uint32    `json:"plan_tape"`
+	Sched     []uint32    `json:"sched_tape"`
+	Violation Violation   `json:"violation"`
+	Minimised bool        `json:"minimised"`
+	Original  *ReplayFile `json:"original,omitempty"`
+	Info      interface{} `json:"info,omitempty"`
+}
+
+func hasViolation(res *CaseResult, prop, oracle string) *Violation {
+	for i, v := range res.Violations {
+		if v.Property == prop && (oracle == "" || v.Oracle == oracle) {
+			return &res.Violations[i]
+		}
+	}
+	return nil
+}
+
+func trimZeros(v []uint32) []uint32 {
+	n := len(v)
+	for n > 0 && v[n-1] == 0 {
+		n--
+	}
+	return append([]uint32(nil), v[:n]...)
+}
+
+// shrink minimises the tapes while the same (property, oracle) violation persists.
+func shrink(t *testing.T, profile, tier string, seed uint64, plan, sched []uint32, prop, oracle string, budget time.Duration) ([]uint32, []uint32, int) {
+	deadline := time.Now().Add(budget)
+	attempts := 0
+	try := func(p, s []uint32) bool {
+		if time.Now().After(deadline) {
+			return false
+		}
+		attempts++
+		res := runCase(t, profile, seed, ReplayTape(p), ReplayTape(s), tier, false)
+		return hasViolation(res, prop, oracle) != nil
+	}
+	plan, sched = trimZeros(plan), trimZeros(sched)
+	shrinkVec := func(v []uint32, isSched bool) []uint32 {
+		mk := func(nv []uint32) bool {
+			if isSched {
+				return try(plan, nv)
+			}
+			return try(nv, sched)
+		}
+		// 1. all zeros
+		if len(v) > 0 && mk(nil) {
+			return nil
+		}
+		// 2. longest zero suffix (binary search on the cut point)
+		lo, hi := 0, len(v)
+		for lo < hi && time.Now().Before(deadline) {
+			mid := (lo + hi) / 2
+			if mk(trimZeros(v[:mid])) {
+				hi = mid
+			} else {
+				lo = mid + 1
+			}
+		}
+		if hi < len(v) {
+			v = trimZeros(v[:hi])
+		}
+		// 3. zero blocks, then single entries
+		for bs := len(v) / 2; bs >= 1 && time.Now().Before(deadline); bs /= 2 {
+			for i := 0; i+bs <= len(v) && time.Now().Before(deadline); i += bs {
+				allZero := true
+				for _, x := range v[i : i+bs] {
+					if x != 0 {
+						allZero = false
+					}
+				}
+				if allZero {
+					continue
+				}
+				nv := append([]uint32(nil), v...)
+				for k := i; k < i+bs; k++ {
+					nv[k] = 0
+				}
+				if mk(trimZeros(nv)) {
+					v = trimZeros(nv)
+				}
+			}
+			if bs == 1 {
+				break
+			}
+		}
+		// 4. lower remaining values
+		for i := 0; i < len(v) && time.Now().Before(deadline); i++ {
+			for v[i] > 1 {
+				nv := append([]uint32(nil), v...)
+				nv[i] = v[i] / 2
+				if !mk(nv) {
+					break
+				}
+				v = nv
+			}
+		}
+		return v
+	}
+	sched = shrinkVec(sched, true)
+	plan = shrinkVec(plan, false)
+	sched = shrinkVec(sched, true)
+	return plan, sched, attempts
+}
+
+type workerSummary struct {
+	Summary   bool            `json:"summary"`
+	Profile   string          `json:"profile"`
+	Tier      string          `json:"tier"`
+	Cases     int             `json:"cases"`
+	Runs      int             `json:"runs"`
+	Steps     int             `json:"steps"`
+	SimMs     int64           `json:"sim_ms"`
+	WallS     float64         `json:"wall_s"`
+	Classes   map[string]int  `json:"classes"`
+	Probes    map[string]int  `json:"probes"`
+	Faults    map[string]int  `json:"faults"`
+	Shapes    []string        `json:"shapes"`
+	Scheds    []string        `json:"scheds"`
+	Nontriv   []string        `json:"nontrivial"`
+	Samples   []interface{}   `json:"samples"`
+	Violating []string        `json:"violating"`
+	Observations []string     `json:"observations"`
+	Seeds     []uint64        `json:"seeds"`
+	Notes     map[string]int  `json:"notes"`
+	Other     map[string]int  `json:"other_property_findings"`
+}
+
 func WorkerMain(t *testing.T) {
 	if *flagRoot == "" {
 		t.Fatal("need -psim.root")
@@ -47,82 +278,235 @@ func WorkerMain(t *testing.T) {
 	switch *flagMode {
 	case "smoke":
 		smoke(t)
+	case "run":
+		workerRun(t)
+	case "replay":
+		workerReplay(t)
+	case "export":
+		workerExport(t)
+	case "gen":
+		// print generated programs
+		for i := 0; i < *flagN; i++ {
+			seed := *flagSeed + uint64(i)
+			p := Generate(NewTape(seed*2+1), DefaultGenCfg())
+			fmt.Printf("# ---- seed %d ----\n%s\n", seed, p.Source())
+		}
 	default:
 		t.Fatalf("unknown mode %s", *flagMode)
 	}
 }
 
-func smokeProg() *Prog {
-	intT := Ty{Base: "int"}
-	strT := Ty{Base: "string"}
-	p := &Prog{}
-	p.Stages = []*StageDef{
-		{Name: "MAKE", Ins: []Field{{"n", intT}}, Outs: []Field{{"xs", intT.ArrayOf()}, {"s", strT}}, SrcKind: "comp"},
-		{Name: "WORK", Ins: []Field{{"x", intT}, {"s", strT}}, Outs: []Field{{"y", intT}}, SrcKind: "comp",
-			Split: true, ChunkIns: []Field{{"c", intT}}, ChunkOuts: []Field{{"part", intT}}},
-		{Name: "SUM", Ins: []Field{{"ys", intT.ArrayOf()}}, Outs: []Field{{"total", intT}}, SrcKind: "exec"},
+func workerRun(t *testing.T) {
+	start := time.Now()
+	var out *os.File
+	if *flagOut != "" {
+		f, err := os.Create(*flagOut)
+		if err != nil {
+			t.Fatal(err)
+		}
+		defer f.Close()
+		out = f
 	}
-	ref := func(call string, path ...string) *Expr { return &Expr{Kind: ERef, Call: call, Path: path} }
-	self := func(path ...string) *Expr { return &Expr{Kind: ERef, Self: true, Path: path} }
-	p.Pipelines = []*PipelineDef{{
-		Name: "TOP", Ins: []Field{{"n", intT}}, Outs: []Field{{"total", intT}, {"ys", intT.ArrayOf()}},
-		Calls: []*CallDef{
-			{Callee: "MAKE", Id: "MAKE", Binds: []Bind{{"n", self("n"), false}}},
-			{Callee: "WORK", Id: "WORK", Mapped: true, Binds: []Bind{{"x", ref("MAKE", "xs"), true}, {"s", ref("MAKE", "s"), false}}},
-			{Callee: "SUM", Id: "SUM", Binds: []Bind{{"ys", ref("WORK", "y"), false}}},
-		},
-		Ret: []Bind{{"total", ref("SUM", "total"), false}, {"ys", ref("WORK", "y"), false}},
-	}}
-	p.Top = &CallDef{Callee: "TOP", Id: "TOP", Binds: []Bind{{"n", &Expr{Kind: ELit, Val: int64(3), T: intT}, false}}}
-	return p
+	emit := func(v interface{}) {
+		b, _ := json.Marshal(v)
+		if out != nil {
+			out.Write(append(b, '\n'))
+		} else {
+			fmt.Println(string(b))
+		}
+	}
+	sum := &workerSummary{Summary: true, Profile: *flagProfile, Tier: *flagTier,
+		Classes: map[string]int{}, Probes: map[string]int{}, Faults: map[string]int{},
+		Notes: map[string]int{}, Other: map[string]int{}}
+	shapes, scheds, nontriv := map[string]bool{}, map[string]bool{}, map[string]bool{}
+	nviol := 0
+	for i := 0; i < *flagN; i++ {
+		if time.Since(start) > *flagBudget {
+			break
+		}
+		seed := *flagSeed + uint64(i)*(*flagStride)
+		plan, sched := NewTape(seed*2+1), NewTape(seed*2+2)
+		res := runCase(t, *flagProfile, seed, plan, sched, *flagTier, false)
+		sum.Cases++
+		sum.Runs += res.Runs
+		sum.Steps += res.Steps
+		sum.SimMs += res.SimTimeMs
+		sum.Classes[res.Class]++
+		sum.Seeds = append(sum.Seeds, seed)
+		for k, v := range res.Probes {
+			sum.Probes[k] += v
+		}
+		for k, v := range res.Faults {
+			sum.Faults[k] += v
+		}
+		for _, n := range res.Notes {
+			sum.Notes[n]++
+		}
+		shapes[res.Shape] = true
+		scheds[res.Sched] = true
+		if res.Nontrivial {
+			nontriv[res.Shape+"/"+res.Sched] = true
+		}
+		if res.Sample != nil && len(sum.Samples) < 2 {
+			sum.Samples = append(sum.Samples, res.Sample)
+		}
+		var own *Violation
+		for k, v := range res.Violations {
+			if v.Property == *flagProfile || v.Property == "SIM" || (v.Property == "OBS" && own == nil && len(sum.Observations) < 2) {
+				if own == nil {
+					own = &res.Violations[k]
+				}
+			} else {
+				sum.Other[v.Property+"/"+v.Oracle]++
+			}
+		}
+		if own != nil {
+			if own.Property != "OBS" {
+				nviol++
+			}
+			rf := &ReplayFile{Profile: *flagProfile, Tier: *flagTier, Seed: seed,
+				Plan: plan.Rec, Sched: sched.Rec, Violation: *own}
+			p2, s2, attempts := shrink(t, *flagProfile, *flagTier, seed, plan.Rec, sched.Rec, own.Property, own.Oracle, *flagShrink)
+			min := &ReplayFile{Profile: *flagProfile, Tier: *flagTier, Seed: seed, Plan: p2, Sched: s2,
+				Minimised: true, Original: rf}
+			// re-run the minimised case with traces to fill in the report
+			res2 := runCase(t, *flagProfile, seed, ReplayTape(p2), ReplayTape(s2), *flagTier, true)
+			if v := hasViolation(res2, own.Property, own.Oracle); v != nil {
+				min.Violation = *v
+				min.Info = map[string]interface{}{"shrink_attempts": attempts, "sample": res2.Sample, "notes": res2.Notes}
+			} else {
+				// minimisation did not reproduce: fall back to the original
+				min = rf
+				min.Info = map[string]interface{}{"note": "minimised tapes did not reproduce; original kept"}
+			}
+			name := fmt.Sprintf("%s-seed%d.replay.json", *flagProfile, seed)
+			dir := path.Dir(*flagOut)
+			if *flagOut == "" {
+				dir = *flagRoot
+			}
+			fp := path.Join(dir, name)
+			b, _ := json.MarshalIndent(min, "", " ")
+			os.WriteFile(fp, b, 0644)
+			if own.Property == "OBS" {
+				sum.Observations = append(sum.Observations, fp)
+				emit(map[string]interface{}{"observation": min.Violation, "replay": fp, "seed": seed})
+			} else {
+				sum.Violating = append(sum.Violating, fp)
+				emit(map[string]interface{}{"violation": min.Violation, "replay": fp, "seed": seed})
+			}
+			if nviol >= *flagMaxViol {
+				break
+			}
+		}
+	}
+	for k := range shapes {
+		sum.Shapes = append(sum.Shapes, k)
+	}
+	for k := range scheds {
+		sum.Scheds = append(sum.Scheds, k)
+	}
+	for k := range nontriv {
+		sum.Nontriv = append(sum.Nontriv, k)
+	}
+	sort.Strings(sum.Shapes)
+	sort.Strings(sum.Scheds)
+	sort.Strings(sum.Nontriv)
+	sum.WallS = time.Since(start).Seconds()
+	emit(sum)
+}
+
+func workerReplay(t *testing.T) {
+	b, err := os.ReadFile(*flagReplay)
+	if err != nil {
+		t.Fatal(err)
+	}
+	var rf ReplayFile
+	if err := json.Unmarshal(b, &rf); err != nil {
+		t.Fatal(err)
+	}
+	tier := rf.Tier
+	if tier == "" {
+		tier = "quick"
+	}
+	sigs := map[string]bool{}
+	var last *CaseResult
+	for i := 0; i < 2; i++ {
+		res := runCase(t, rf.Profile, rf.Seed, ReplayTape(rf.Plan), ReplayTape(rf.Sched), tier, i == 0)
+		sigs[fmt.Sprintf("%s|%s|%s", res.Sched, res.Shape, jsonString(res.Violations))] = true
+		last = res
+	}
+	v := hasViolation(last, rf.Violation.Property, rf.Violation.Oracle)
+	outcome := map[string]interface{}{"replayed": true, "deterministic": len(sigs) == 1, "reproduced": v != nil}
+	if v != nil {
+		outcome["violation"] = v
+	}
+	if *flagTrace {
+		outcome["sample"] = last.Sample
+	}
+	ob, _ := json.MarshalIndent(outcome, "", " ")
+	fmt.Println(string(ob))
+	if v != nil {
+		fmt.Printf("VIOLATION property=%s replay=%s\n", v.Property, *flagReplay)
+	}
 }
 
 func smoke(t *testing.T) {
-	start := time.Now()
-	sigs := map[uint64]map[string]int{}
-	for i := 0; i < *flagN; i++ {
-		seed := *flagSeed + uint64(i)
-		for rep := 0; rep < 2; rep++ {
-			var r *Run
-			InBubble(t, func() {
-				cfg := &RunCfg{Root: *flagRoot, Prog: smokeProg(),
-					FCfg:  &FCfg{MaxLen: 3, MaxChunks: 2, Salt: "smoke"},
-					Flags: []string{"--localcores=4", "--localmem=8", "--vdrmode=rolling"},
-					Sched: NewTape(seed), MaxSteps: 20000, WMrp: 1, WJob: 1, WAux: 1, WTime: 0,
-					KeepTrace: *flagTrace}
-				r = NewRun(cfg)
-				r.Execute()
-			})
-			outs, err := r.ReadTopOuts()
-			sig := fmt.Sprintf("steps=%d hash=%x exit=%v outs=%s err=%v jobs=%d viol=%d stalled=%v simtime=%v",
-				r.Steps, r.SchedHash, r.ExitCodes, Canon(outs), err, len(r.Jobs), len(r.Violations), r.Stalled, r.SimTime)
-			if sigs[seed] == nil {
-				sigs[seed] = map[string]int{}
-			}
-			sigs[seed][sig]++
-			if rep == 0 && (i < 3 || *flagTrace) {
-				t.Log(seed, sig)
-				for _, v := range r.Violations {
-					t.Log("  VIOLATION", v)
-				}
-				if *flagTrace {
-					for _, e := range r.Trace {
-						t.Logf("  %4d %-60s %s %s", e.Step, e.Task, e.Kind, e.Detail)
-					}
-					t.Log(r.outBuf.String())
-				}
-			}
-		}
-	}
-	bad := 0
-	for s, m := range sigs {
-		if len(m) != 1 {
-			bad++
-			t.Logf("seed %d: %d distinct signatures", s, len(m))
-			for k := range m {
-				t.Log("   ", k)
-			}
-		}
-	}
-	t.Logf("%d seeds x2, nondeterministic seeds: %d, wall %v", len(sigs), bad, time.Since(start))
+	t.Log("smoke mode removed; use -psim.mode run")
 }
+
+// workerExport replays a case and writes what is needed to reproduce its first run
+// with the real mrp binary: the program (all stages as exec stages driven by
+// tools/realstage.py) and a table of the outputs every job produced.
+func workerExport(t *testing.T) {
+	b, err := os.ReadFile(*flagReplay)
+	if err != nil {
+		t.Fatal(err)
+	}
+	var rf ReplayFile
+	if err := json.Unmarshal(b, &rf); err != nil {
+		t.Fatal(err)
+	}
+	tier := rf.Tier
+	if tier == "" {
+		tier = "quick"
+	}
+	ExportHook = func(r *Run) {
+		if *flagOut == "" {
+			return
+		}
+		os.MkdirAll(*flagOut, 0755)
+		p := *r.Prog
+		var stages []*StageDef
+		for _, s := range p.Stages {
+			c := *s
+			c.SrcKind = "exec"
+			stages = append(stages, &c)
+		}
+		p.Stages = stages
+		src := strings.ReplaceAll(p.Source(), "\"stagebin ", "\"realstage.py ")
+		os.WriteFile(path.Join(*flagOut, "pipeline.mro"), []byte(src), 0644)
+		type row struct {
+			Stage string      `json:"stage"`
+			Phase string      `json:"phase"`
+			Args  interface{} `json:"args"`
+			Outs  interface{} `json:"outs"`
+		}
+		var rows []row
+		for _, j := range r.Jobs {
+			if j.Outs != nil {
+				a, _ := j.Args.(map[string]interface{})
+				rows = append(rows, row{j.Stage, j.Phase, stripDunder(a), j.Outs})
+			}
+		}
+		tb, _ := json.MarshalIndent(rows, "", " ")
+		os.WriteFile(path.Join(*flagOut, "outs_table.json"), tb, 0644)
+		fb, _ := json.Marshal(r.Cfg.Flags)
+		os.WriteFile(path.Join(*flagOut, "flags.json"), fb, 0644)
+		ExportHook = nil
+	}
+	runCase(t, rf.Profile, rf.Seed, ReplayTape(rf.Plan), ReplayTape(rf.Sched), tier, true)
+	fmt.Println("exported to", *flagOut)
+}
+
+// ExportHook, if set, is called with every finished run.
+var ExportHook func(r *Run)
